@@ -253,6 +253,10 @@ func TypesEqual(a, b Type) bool {
 
 	a = GetUnderlyingType(a)
 	b = GetUnderlyingType(b)
+	if a == nil || b == nil {
+		// a sequence holding only null ('[null]') has no underlying type
+		return a == nil && b == nil
+	}
 
 	switch ta := a.(type) {
 	case *SimpleType:
